@@ -62,7 +62,7 @@ def setup_worker(tier, ctx):
 # gated slices (idx % 32): constructs with a known finding or outside the documented domain of the transformations
 GATES = {3: 'types', 13: 'full_features', 5: 'called_from_internal', 6: 'intf_block', 7: 'multi_unit_file', 9: 'lists',
          11: 'same_basename', 17: 'sibling_caller', 19: 'function_in_subgraph', 21: 'module_level_import',
-         23: 'mixed_role_module', 15: 'unused_imports', 30: 'rem_then_rename', 1: 'kernel_module_globals', 31: 'internal_calls', 25: 'internal_in_subgraph', 27: 'non_procedure_in_subgraph', 29: 'bare_external_wrap'}
+         23: 'mixed_role_module', 15: 'unused_imports', 30: 'rem_then_rename', 28: 'dup_free_then_wrap', 26: 'dup_intf_then_rename', 1: 'kernel_module_globals', 31: 'internal_calls', 25: 'internal_in_subgraph', 27: 'non_procedure_in_subgraph', 29: 'bare_external_wrap'}
 
 
 def gen_case(rng, idx):
@@ -79,6 +79,8 @@ def gen_case(rng, idx):
     all_intf = gate != 'bare_external_wrap'
     if gate == 'unused_imports':
         extra['unused_imports'] = True
+    if gate == 'module_level_import':
+        extra['module_level_imports'] = True
     P = PL.gen_project(rng, rng.randint(5, 12), extra, all_intf=all_intf,
                        internal_calls=gate in ('internal_calls', 'full_features', 'called_from_internal'),
                        kernel_module_globals=gate in ('kernel_module_globals', 'full_features'),
@@ -89,6 +91,8 @@ def gen_case(rng, idx):
         traits.add('kernel_module_globals')
     if 'unused_subroutine_import' in P.features:
         traits.add('unused_imports')
+    if any(m.uses for m in P.modules.values()):
+        traits.add('module_level_import')
     if any(calls for p in P.procs for _, calls in p.internals):
         traits.add('internal_calls')
     drivers = None
@@ -104,6 +108,8 @@ def gen_case(rng, idx):
     shape = rng.choice(SHAPES)
     if gate in ('rem_then_rename', 'full_features') and rng.random() < 0.8:
         shape = 'all'
+    if gate in ('dup_free_then_wrap', 'dup_intf_then_rename'):
+        shape = 'dupdep'
     allow = {gate} if gate else set()
     if gate == 'full_features':
         allow |= {'dup_local_name', 'module_level_import', 'function_in_subgraph', 'non_procedure_in_subgraph'}
@@ -133,6 +139,7 @@ def gen_case(rng, idx):
         paths['output_dir'] = True
         traits.add('same_basename')
     return {'P': P, 'cfg': cfg, 'meta': meta, 'spec': spec, 'paths': paths, 'gates': sorted(traits), 'shape': shape,
+            'gate': gate if traits else None,
             'exp': exp, 'dupk': info['dup'], 'remk': info['rem']}
 
 
@@ -223,6 +230,11 @@ def origin_of(written, case, originals):
     return None, True
 
 
+COARSE = {'pipeline-fails-in-both-modes': 'pipeline-fails', 'plan-fails': 'pipeline-fails', 'convert-fails': 'pipeline-fails',
+          'both-fails': 'pipeline-fails', 'plan-build-fails': 'build', 'plan-build-run-fails': 'build',
+          'plan-build-output-differs': 'build', 'stale-original-kept': 'build'}
+
+
 def pipe_key(case):
     """the transformations of the pipeline (without options) as a key component"""
     return '+'.join(n for n, _ in case['spec'] if n != 'write') or 'write-only'
@@ -289,11 +301,15 @@ def run_case(idx, rng, tier, ctx):
         feats.add('libs')
     res['features'] = sorted(feats)
     witness = {'config': cfg, 'pipeline': spec, 'paths': paths, 'sources': texts, 'gates': case['gates']}
-    gates = '+'.join(case['gates'])
+    gate = case['gate']
+    if case['gates'] and not gate:
+        res['inconclusive'] = f'generator defect: gated constructs {case["gates"]} outside a gated slice'
+        return res
 
     def viol(kind, detail, msg):
-        """precise mechanism key in the documented domain; coarse outcome per gate inside a gated slice"""
-        key = f'gated[{gates}]:{kind}' if gates else (f'{kind}:{detail}' if detail else kind)
+        """precise mechanism key in the documented domain; coarse outcome class per gate inside a gated slice"""
+        key = f'gated[{gate}]:{COARSE.get(kind.split(":")[0], "lists-differ")}' if gate else (
+            f'{kind}:{detail}' if detail else kind)
         if not any(v['key'] == key for v in res['violations']):
             res['violations'].append({'key': key, 'msg': msg[:900], 'witness': witness})
 
